@@ -5,6 +5,9 @@ mod props;
 
 use engine::report::Tier;
 
+#[global_allocator]
+static ALLOC: engine::alloc::Counting = engine::alloc::Counting;
+
 fn usage() -> ! {
     eprintln!("usage: ttv <C01..C20> <quick|thorough> | ttv <ID> --replay <file>");
     std::process::exit(2);
@@ -16,6 +19,9 @@ fn main() {
         usage();
     }
     let id = args[1].as_str();
+    if std::env::var_os("VERIF_LOG").is_some() {
+        engine::logcap::install();
+    }
     // a panic anywhere outside an oracle-guarded region is a machinery failure (exit 2), never a verdict
     let default_hook = std::panic::take_hook();
     std::panic::set_hook(Box::new(move |info| {
